@@ -104,16 +104,16 @@ Print Assumptions C19_never_clobbers_partial.
 (* and therefore the exposure flow and the parallel-observation flow (all buckets, formats, runs,
    pre-existing files, including the runs that end in an exception) leave every existing file as it was *)
 Theorem C19_flows_never_clobber :
-  (forall req fs fs' rep e, flow_exposure src_tables req fs = (fs', rep, e) ->
+  (forall ep req fs fs' rep e, flow_exposure src_tables ep req fs = (fs', rep, e) ->
      forall f x, lookup f fs = Some x -> lookup f fs' = Some x) /\
-  (forall req n fs fs' rep e, flow_dask src_tables req n fs = (fs', rep, e) ->
+  (forall ep req n fs fs' rep e, flow_dask src_tables ep req n fs = (fs', rep, e) ->
      forall f x, lookup f fs = Some x -> lookup f fs' = Some x).
 Proof.
   assert (S : safe_new src_tables = true) by (vm_compute; reflexivity).
   split.
-  - intros req fs fs' rep e H. exact (save_new_preserves _ S _ _ _ _ _ _ _ _ H).
-  - intros req n fs fs' rep e H. apply flow_dask_cases in H. destruct H as [(-> & _ & _)|H]; [auto|].
-    exact (flow_dask_from_preserves _ S _ _ _ _ _ _ _ _ H).
+  - intros ep req fs fs' rep e H. exact (save_new_preserves _ S _ _ _ _ _ _ _ _ _ H).
+  - intros ep req n fs fs' rep e H. apply flow_dask_cases in H. destruct H as [(-> & _ & _)|H]; [auto|].
+    exact (flow_dask_from_preserves _ S _ _ _ _ _ _ _ _ _ H).
 Qed.
 Print Assumptions C19_flows_never_clobber.
 
@@ -121,14 +121,14 @@ Print Assumptions C19_flows_never_clobber.
 
 (* FULL statement: every reported name holds the content of the run it is attributed to *)
 Definition C19_reported_own_run_full : Prop :=
-  forall req fs fs' rep e, flow_exposure src_tables req fs = (fs', rep, e) -> attributed rep fs'.
+  forall ep req fs fs' rep e, flow_exposure src_tables ep req fs = (fs', rep, e) -> attributed ep rep fs'.
 
 (* refuted on the unchanged tree: the new writers skip an existing file silently, and
    save_to_files reports the name all the same *)
 Theorem C19_reported_own_run_refuted : ~ C19_reported_own_run_full.
 Proof.
   intro H.
-  specialize (H [[(Image, [Npy])]] [("detector_image.npy", 99%Z)] _ _ _ eq_refl 0 Image Npy "detector_image.npy").
+  specialize (H 0 [[(Image, [Npy])]] [("detector_image.npy", 99%Z)] _ _ _ eq_refl 0 Image Npy "detector_image.npy").
   vm_compute in H. assert (X : Some 99%Z = Some 20%Z) by (apply H; auto). discriminate X.
 Qed.
 Print Assumptions C19_reported_own_run_refuted.
@@ -137,17 +137,17 @@ Print Assumptions C19_reported_own_run_refuted.
    directory of C19_dir_fresh) every reported file holds its own run's bucket — for every request,
    duplicates included, every number of runs, whatever the writers do on existing files *)
 Theorem C19_reported_own_run_partial :
-  (forall req fs fs' rep e, fresh fs -> flow_exposure src_tables req fs = (fs', rep, e) -> attributed rep fs') /\
-  (forall req n fs fs' rep e, fresh fs -> flow_dask src_tables req n fs = (fs', rep, e) -> attributed rep fs').
+  (forall ep req fs fs' rep e, fresh fs -> flow_exposure src_tables ep req fs = (fs', rep, e) -> attributed ep rep fs') /\
+  (forall ep req n fs fs' rep e, fresh fs -> flow_dask src_tables ep req n fs = (fs', rep, e) -> attributed ep rep fs').
 Proof.
   split.
-  - intros req fs fs' rep e F H.
-    apply (save_new_attributed src_tables (items req) None fs [] fs' rep e); auto.
+  - intros ep req fs fs' rep e F H.
+    apply (save_new_attributed ep src_tables (items req) None fs [] fs' rep e); auto.
     + now apply fresh_good.
     + intros r b f n [].
-  - intros req n fs fs' rep e F H. apply flow_dask_cases in H.
+  - intros ep req n fs fs' rep e F H. apply flow_dask_cases in H.
     destruct H as [(_ & -> & _)|H]; [intros r b f m []|].
-    apply (flow_dask_from_attributed src_tables req n 0 fs [] fs' rep e); auto.
+    apply (flow_dask_from_attributed ep src_tables req n 0 fs [] fs' rep e); auto.
     + now apply fresh_good.
     + intros r b f m [].
 Qed.
@@ -161,16 +161,16 @@ Proof. split; intros b s f; [reflexivity|]. destruct b, s, f; reflexivity. Qed.
 (* exposure and parallel observation: when the flow returns normally, the reported files are exactly
    one per requested (bucket, format, run), under the name of that combination, and nothing else *)
 Theorem C19_complete :
-  (forall req fs fs' rep, flow_exposure src_tables req fs = (fs', rep, None) ->
+  (forall ep req fs fs' rep, flow_exposure src_tables ep req fs = (fs', rep, None) ->
      forall r b f n, In (r, b, f, n) rep <-> r = 0 /\ In (b, f) (items req) /\ n = render_new b None f) /\
-  (forall req nruns fs fs' rep, flow_dask src_tables req nruns fs = (fs', rep, None) ->
+  (forall ep req nruns fs fs' rep, flow_dask src_tables ep req nruns fs = (fs', rep, None) ->
      forall r b f n, In (r, b, f, n) rep <->
        r < nruns /\ In (b, f) (items req) /\ n = render_new b (Some r) f).
 Proof.
   split.
-  - intros req fs fs' rep H r b f n. apply save_new_complete in H. subst rep. simpl.
+  - intros ep req fs fs' rep H r b f n. apply save_new_complete in H. subst rep. simpl.
     apply in_new_entries.
-  - intros req nruns fs fs' rep H r b f n. apply flow_dask_cases in H.
+  - intros ep req nruns fs fs' rep H r b f n. apply flow_dask_cases in H.
     destruct H as [(_ & _ & X)|H]; [congruence|].
     apply flow_dask_from_complete in H. subst rep. simpl.
     rewrite in_flat_map. split.
@@ -181,7 +181,7 @@ Qed.
 Print Assumptions C19_complete.
 
 Example C19_ex_complete :
-  flow_dask src_tables [[(Image, [Fits; Npy]); (Pixel, [Npy])]] 2 [] =
+  flow_dask src_tables 0 [[(Image, [Fits; Npy]); (Pixel, [Npy])]] 2 [] =
   ([("detector_image_0.fits", 20%Z); ("detector_image_0.npy", 20%Z); ("detector_pixel_0.npy", 18%Z);
     ("detector_image_1.fits", 36%Z); ("detector_image_1.npy", 36%Z); ("detector_pixel_1.npy", 34%Z)],
    [(0, Image, Fits, "detector_image_0.fits"); (0, Image, Npy, "detector_image_0.npy");
@@ -191,14 +191,14 @@ Proof. vm_compute. reflexivity. Qed.
 
 (* FULL statement for the sequential observation *)
 Definition C19_complete_seq_full : Prop :=
-  forall req nruns fs fs' rep, flow_seq src_tables req nruns fs = (fs', rep, None) ->
+  forall ep req nruns fs fs' rep, flow_seq src_tables ep req nruns fs = (fs', rep, None) ->
     forall r b f, r < nruns -> In (b, f) (items req) -> exists n, In (r, b, f, n) rep.
 
 (* refuted on the unchanged tree: Outputs.save_to_file uses only the first entry of each dict *)
 Theorem C19_complete_seq_refuted : ~ C19_complete_seq_full.
 Proof.
   intro H.
-  specialize (H [[(Image, [Fits]); (Pixel, [Npy])]] 1 [] _ _ eq_refl 0 Pixel Npy).
+  specialize (H 0 [[(Image, [Fits]); (Pixel, [Npy])]] 1 [] _ _ eq_refl 0 Pixel Npy).
   destruct H as [n Hn]; [auto | vm_compute; auto |].
   vm_compute in Hn. destruct Hn as [E|[]]. discriminate E.
 Qed.
